@@ -1,9 +1,84 @@
 package main
 
-import "verif/lib/ev"
+import (
+	"fmt"
+	"strings"
 
-// framesPart is filled in once the UI explorer exists (see checks/c07); until then the
-// geometry enumeration is the whole check and the evidence says so.
+	"servitor/config"
+	"servitor/verifrt"
+	"verif/lib/ev"
+	"verif/lib/uidrv"
+	"verif/lib/uimodel"
+)
+
+// framesPart: every frame the real UI emits while browsing the generated world, for every
+// terminal height 2..9 and every key sequence up to a length bound over a small alphabet
+// that reaches all modes (loading, normal, selection, command, opening, problem).
 func framesPart(r *ev.Report) {
-	r.Extra["ui_frames"] = "not part of this run"
+	w := uimodel.Build()
+	keys := []string{"j", "k", " ", "1", "\r", ":", "x", "\x1b", "o", "g"}
+	depth := 2
+	if r.Thorough() {
+		depth = 3
+	}
+	var seqs []string
+	var rec func(cur string)
+	rec = func(cur string) {
+		seqs = append(seqs, cur)
+		if len(cur) == depth {
+			return
+		}
+		for _, k := range keys {
+			rec(cur + k)
+		}
+	}
+	rec("")
+	starts := []uimodel.Start{w.Starts()[0], w.Starts()[1], w.Starts()[5], w.Starts()[8]}
+	var frames, runs int64
+	heights := []int{2, 3, 4, 5, 9}
+	if r.Thorough() {
+		heights = []int{2, 3, 4, 5, 6, 7, 8, 9}
+	}
+	for _, h := range heights {
+		for _, st := range starts {
+			for _, seq := range seqs {
+				w.Net.W.Install()
+				uidrv.Reset()
+				config.Parsed.Network.Context = 2
+				config.Parsed.Feeds = w.Feeds
+				config.Parsed.Media.Hook = []string{ev.VerifDir() + "/bin/vdump", "%url"}
+				var faults []string
+				out := verifrt.Run(nil, 200000, map[string]bool{"pub": true, "splicer": true, "client": true}, func() {
+					verifrt.SetExplore(false)
+					d := uidrv.New(30, h)
+					d.OnFrame = func(f string) {
+						frames++
+						_, hh := d.S.VerifSize()
+						if n := strings.Count(f, "\n") + 1; n != hh && len(faults) < 3 {
+							faults = append(faults, fmt.Sprintf("frame of %d lines on a terminal of %d rows", n, hh))
+						}
+					}
+					if err := d.Command(st.Cmd, st.Arg); err != nil {
+						return
+					}
+					d.Keys(seq)
+					// a resize in the reached state redraws the frame at another height
+					d.Resize(30, h+1)
+					d.Resize(30, h)
+				})
+				runs++
+				if out.Panic != "" || out.Deadlock {
+					continue // crashes and wedges are C07's
+				}
+				for _, f := range faults {
+					r.Violation("ui-frame:height", map[string]any{"start": st, "keys": seq, "height": h, "msg": f})
+				}
+			}
+		}
+	}
+	r.Eval(runs)
+	r.Extra["ui_frames"] = frames
+	r.Extra["ui_runs"] = runs
+	r.Extra["ui_key_depth"] = depth
+	r.Sample(map[string]any{"ui_start": starts[0], "keys": "j1", "height": 3})
 }
